@@ -1151,6 +1151,10 @@ def run_msa(case):
             used = [row[i] for row in cols if row[i] != -1]
             o.check(used == list(range(len(strs[i]))), "msa_gap_stripped_rows_equal_inputs", lambda: f"row {i} uses indices {used} of a sequence of length {len(strs[i])}")
         conv_checks(o, ali, cols, strs, kind, case["gap"], case["terminal"])
+        # the MSA through FASTA and (first vs. last row) through CIGAR
+        fasta_checks(o, ali, cols, strs, kind, {"via_text": True, "chars_per_line": None, "gap_chars": "mixed", "dot_chars": "._", "explicit_type": kind == "prot"})
+        opt = {"introns": [[0, 0, 50]], "distinguish": True, "hard": False, "terminal": bool(case["terminal"])}
+        cigar_checks(o, ali, cols, strs, 0, n - 1, opt)
     # order is a permutation
     order_l = np.asarray(order).tolist()
     o.check(sorted(order_l) == list(range(n)), "msa_order_is_permutation", f"order {order_l}")
